@@ -70,6 +70,27 @@ def check(tier, seed):
     for cfg in configs:
         out += vm_checks.sweep(h, rep, [dict(j, **cfg) for j in samples_catch + fam], "c03vm", stats, on_result)
     h.close()
+    # (4) the right clause, by the language's rules: the lockstep runs the code the emitter produced on both sides, so a wrong clause
+    # ORDER or a wrong handler chain is invisible to it.  Two independent oracles: programs with generator-computed expectations
+    # (a fault inside a clause is offered to the clauses after it, in source order), and the reference evaluator S on every
+    # fault-family program inside its core (result, printed text, identity of an unhandled exception)
+    expst = vm_checks.expectation_stage(rep, tier, seed, "c03rule", want=lambda m: m.get("exc"))
+    import srcjudge
+    jd = srcjudge.Judge()
+    jst = dict(judged=0, agree=0, disagree=0, outside_core=0)
+    try:
+        for j in fam:
+            c, d = jd.judge(j["src"], j["args"])
+            jst["judged"] += 1
+            if c == "agree": jst["agree"] += 1
+            elif c == "disagree":
+                jst["disagree"] += 1
+                if jst["disagree"] <= 3:
+                    rep.violation("c03_rule_%s" % j["name"], "# the real pipeline and the reference evaluator disagree on a fault-family program (args %s)\n# %s\n%s" % (j["args"], d, j["src"]), True)
+            else: jst["outside_core"] += 1
+    finally:
+        jd.close()
+    rep.cov.update(rule_expectations=expst, reference_evaluator_on_fault_family=jst)
     rep.cov.update(trusted_base=["Lean 4.33 kernel", "axioms: propext, Classical.choice, Quot.sound",
                                  "correspondence harnesses h_exc.c, h_vm.c + comparators", "gcc/ASan"],
                    evaluations=res["queries"] + len(out), distinct_nontrivial=res["tables"] + stats.get("ok", 0),
